@@ -13,6 +13,7 @@
   a, b; nodes 2 = a, 3 = b, 4 = a ∧ b; the user holds node 4; node 2 is garbage).
 -/
 import DDProofs.GcExample
+import DDProofs.SmallGc
 open Std
 
 namespace DD
@@ -235,19 +236,81 @@ example : ∀ k, k ∈ [2] ↔ (exM.ref[k]? = some 0 ∧ ∃ r ∈ gcRoots none 
 /-! ### rooted collection (used by `swap`) -/
 
 /-- `collect_garbage(roots)`: terminates without error (all roots being nodes), keeps the
-invariant and exact counts, empties the computed table and removes EXACTLY the count-0
-cascade started at the roots whose count is 0 (`Dead`); nothing else changes. -/
+invariant and exact counts (SAME ledger), empties the computed table and removes EXACTLY the
+count-0 cascade started at the roots whose count is 0 (`Dead`); nothing else changes.
+Frame facts (as for the full collection, `C06_gc_exact`):
+* the removed set by reachability: a node stays iff it is reachable from a node the user holds
+  or from a count-0 node that is NOT among the roots (`GcKeep`: the rooted collection only
+  starts at the given roots, other unreferenced nodes and what hangs below them are not
+  looked at); when every count-0 node is among the roots this is "reachable from a held node";
+* everything reachable from a held node stays; the surviving nodes are unchanged and denote
+  what they denoted;
+* `vars`, the level order, the reordering switches (`lastLen`, `ctx`) are unchanged, hence
+  `OrderOK` is kept;
+* the count of a surviving node never grows, and is unchanged when none of its stored
+  parents was removed; no count drops to 0 through the ledger (held nodes keep a positive count);
+* unique-table entries of survivors are untouched, those of removed nodes are gone;
+  `_min_free` is still the least unused number; `len` does not grow. -/
 theorem C06_gc_rooted (rs : List Int) (m : Mgr) (ext : Nat → Nat) (hi : Inv m) (hr : RefExact m ext)
     (hroots : ∀ r ∈ rs, m.tbl.Mem r) :
     ∃ m', collectGarbage (some rs) m = (.ok (), m') ∧ Inv m' ∧ RefExact m' ext ∧
       (∀ k x, m'.tbl.node? k = some x ↔
         (m.tbl.node? k = some x ∧ ¬ Dead m.tbl ext (gcStart (some rs) m) k)) ∧
       (∀ (u : Int) a, m'.tbl.Mem u → den m'.tbl u a = den m.tbl u a) ∧
-      (∀ key : List Int, m'.cache[key]? = none) := by
+      (∀ key : List Int, m'.cache[key]? = none) ∧
+      -- the removed set by reachability
+      (∀ k x, m'.tbl.node? k = some x ↔
+        (m.tbl.node? k = some x ∧ GcReach m.tbl (GcKeep m ext (gcStart (some rs) m)) k)) ∧
+      ((∀ k, m.ref[k]? = some 0 → ∃ r ∈ rs, r.natAbs = k) →
+        ∀ k x, m'.tbl.node? k = some x ↔ (m.tbl.node? k = some x ∧ GcReach m.tbl (GcHeld ext) k)) ∧
+      (∀ u, GcReach m.tbl (GcHeld ext) u → (u = 1 ∨ (m'.tbl.node? u).isSome)) ∧
+      -- the order and the switches
+      m'.tbl.vars = m.tbl.vars ∧ m'.tbl.l2v = m.tbl.l2v ∧ m'.lastLen = m.lastLen ∧ m'.ctx = m.ctx ∧
+      (OrderOK m.tbl → OrderOK m'.tbl) ∧
+      -- counts of the survivors
+      (∀ u c, m'.ref[u]? = some c → ∃ c0, m.ref[u]? = some c0 ∧ c ≤ c0 ∧
+        ((∀ k x, m.tbl.node? k = some x → (x.lo.natAbs = u ∨ x.hi.natAbs = u) →
+            m'.tbl.node? k = some x) → c = c0)) ∧
+      (∀ u, 0 < ext u → ∃ c, m'.ref[u]? = some (c + 1)) ∧
+      -- unique table, `_min_free`, size
+      (∀ k x, m'.tbl.node? k = some x → m'.pred[x.key]? = m.pred[x.key]?) ∧
+      (∀ k x, m.tbl.node? k = some x → m'.tbl.node? k = none → m'.pred[x.key]? = none) ∧
+      (LeastFree m → LeastFree m') ∧ m'.len ≤ m.len := by
   obtain ⟨m', hrun, hp⟩ := collectGarbage_rooted_spec (some rs) m ext hi hr
     (fun r hr' => (hr.dom _).mpr (hroots r hr'))
-  exact ⟨m', hrun, hp.inv, hp.refExact, hp.nodes, fun u a hu => hp.den_eq u hu a,
-    collectGarbage_ok_cache _ m m' hrun⟩
+  have hW : ∀ k, gcStart (some rs) m k → m.ref[k]? = some 0 := fun k h => h.1
+  have hnodes : ∀ k x, m'.tbl.node? k = some x ↔
+      (m.tbl.node? k = some x ∧ GcReach m.tbl (GcKeep m ext (gcStart (some rs) m)) k) := by
+    intro k x
+    rw [hp.nodes]
+    constructor
+    · rintro ⟨h1, h2⟩
+      refine ⟨h1, Classical.byContradiction fun hn => h2 ?_⟩
+      exact (dead_iff_unreachable hi.toInvS hr hW k x h1).mpr hn
+    · rintro ⟨h1, h2⟩
+      exact ⟨h1, fun hd => (dead_iff_unreachable hi.toInvS hr hW k x h1).mp hd h2⟩
+  refine ⟨m', hrun, hp.inv, hp.refExact, hp.nodes, fun u a hu => hp.den_eq u hu a,
+    collectGarbage_ok_cache _ m m' hrun, hnodes, ?_, fun u hu => hp.reach_kept hi.toInvS hu,
+    hp.sub.vars, hp.sub.l2v, hp.sub.lastLen, hp.sub.ctx,
+    fun ho => ho.of_same_order hp.sub.vars hp.sub.l2v,
+    fun u c hc => hp.ref_le hr u c hc, ?_, ?_, hp.sub.predGone, hp.sub.leastFree, ?_⟩
+  · intro hall k x
+    rw [hnodes, gcReach_keep_full (W := gcStart (some rs) m) (fun k hk => ⟨hk, hall k hk⟩)]
+  · intro u he
+    have hmem := hp.refExact.mem_of_ext_pos he
+    have hg := hp.refExact.get (u := (u : Int)) (by simpa [Tbl.Mem] using hmem)
+    simp only [Int.natAbs_natCast] at hg
+    exact ⟨indeg m'.tbl u + (ext u - 1) + (if u = 1 then 1 else 0), by rw [hg]; congr 1; omega⟩
+  · intro k x hk
+    apply hp.sub.predKeep
+    intro k' x' hk' hkey
+    have hk0 := hp.sub.sub k x hk
+    have hx : x' = x := Nd.key_inj hkey
+    subst hx
+    have : k' = k := hi.wf.unique _ _ _ hk' hk0
+    subst this
+    simp [hk]
+  · have := hp.sub.size; simp only [Mgr.len]; omega
 
 example : ∃ m', collectGarbage (some [2, -3]) exM = (.ok (), m') ∧ Inv m' := by
   obtain ⟨m', h1, h2, -⟩ := C06_gc_rooted [2, -3] exM exExt exM_inv exM_refExact (by
@@ -257,6 +320,24 @@ example : ∃ m', collectGarbage (some [2, -3]) exM = (.ok (), m') ∧ Inv m' :=
   exact ⟨m', h1, h2⟩
 /-- on the example the rooted collection from `{2, -3}` frees node 2 only (3 has count 1) -/
 example : (collectGarbage (some [2, -3]) exM).2.tbl.succ.keys = [3, 4] := by decide
+/-- non-vacuity of the rooted/unrooted difference: with the root `-3` only, the unreferenced
+node 2 is NOT among the roots, is a `GcKeep` node, and stays (the code really keeps it);
+and the premise "every count-0 node is among the roots" holds for the roots `{2, -3}` -/
+example : (collectGarbage (some [-3]) exM).2.tbl.succ.keys = [2, 3, 4] ∧
+    GcKeep exM exExt (gcStart (some [-3]) exM) 2 := by
+  refine ⟨by decide, Or.inr ⟨by decide, ?_⟩⟩
+  · rintro ⟨-, r, hr', h⟩
+    simp only [gcRoots, List.mem_cons, List.not_mem_nil, or_false] at hr'
+    subst hr'; revert h; decide
+/-- … and for the roots `{2, -3}` every count-0 node is a root, so that collection leaves
+exactly what is reachable from the held node 4 -/
+example : ∀ k, exM.ref[k]? = some 0 → ∃ r ∈ [(2 : Int), -3], r.natAbs = k := by
+  intro k h
+  have hk := getElem?_mem_keys _ _ _ h
+  have hkeys : exM.ref.keys = [1, 2, 3, 4] := by decide
+  rw [hkeys] at hk
+  simp only [List.mem_cons, List.not_mem_nil, or_false] at hk
+  rcases hk with rfl | rfl | rfl | rfl <;> revert h <;> decide
 
 /-! ### no stale computed-table entry -/
 
